@@ -59,7 +59,7 @@ impl<L> Context<L> {
         Context {
             holidays: self.holidays,
             locale,
-            approx_bound_interval_size: None,
+            approx_bound_interval_size: self.approx_bound_interval_size,
         }
     }
 
